@@ -83,8 +83,8 @@ pub fn run_one(run: u64, seed: u64) -> RunOut {
         match variant {
             0 => {
                 let ((mut tx_a, _rx_a), (_tx_b, rx_b)) = open_port(&a.client, &mut b.listener).await?;
-                let rtask = tokio::spawn(drain(rx_b, rng.chance(50)));
-                let stask = tokio::spawn(async move {
+                let rtask = crate::sched::spawn(drain(rx_b, rng.chance(50)));
+                let stask = crate::sched::spawn(async move {
                     // leave a particular number of credits behind
                     if pre_len > 0 {
                         let _ = tx_a.send(Bytes::from(payload(1, pre_len))).await;
@@ -112,14 +112,14 @@ pub fn run_one(run: u64, seed: u64) -> RunOut {
                 let ((mut tx_ay, rx_ay), (mut tx_by, rx_by)) = open_port(&a.client, &mut b.listener).await?;
                 let _idle = rx_bx; // kept alive, never polled
                 let big = cfg_b.receive_buffer as usize * 3 + 5;
-                let xs = tokio::spawn(async move {
+                let xs = crate::sched::spawn(async move {
                     let _ = tx_ax.send(Bytes::from(payload(7, big))).await;
                     tx_ax
                 });
                 let n = n_msgs;
                 let lb = cfg_b.receive_buffer as usize + 3;
                 let la = cfg_a.receive_buffer as usize + 3;
-                let ys1 = tokio::spawn(async move {
+                let ys1 = crate::sched::spawn(async move {
                     for i in 0..n {
                         if tx_ay.send(Bytes::from(payload(i as u64, lb))).await.is_err() {
                             return false;
@@ -127,7 +127,7 @@ pub fn run_one(run: u64, seed: u64) -> RunOut {
                     }
                     true
                 });
-                let ys2 = tokio::spawn(async move {
+                let ys2 = crate::sched::spawn(async move {
                     for i in 0..n {
                         if tx_by.send(Bytes::from(payload(100 + i as u64, la))).await.is_err() {
                             return false;
@@ -135,8 +135,8 @@ pub fn run_one(run: u64, seed: u64) -> RunOut {
                     }
                     true
                 });
-                let yr1 = tokio::spawn(drain(rx_by, false));
-                let yr2 = tokio::spawn(drain(rx_ay, false));
+                let yr1 = crate::sched::spawn(drain(rx_by, false));
+                let yr2 = crate::sched::spawn(drain(rx_ay, false));
                 settle().await;
                 if !ys1.is_finished() {
                     pending.push("port Y A>B sends (port X's receiver idle)".into());
@@ -160,7 +160,7 @@ pub fn run_one(run: u64, seed: u64) -> RunOut {
             _ => {
                 // exhaust-then-cancel
                 let ((tx_a, _rx_a), (_tx_b, rx_b)) = open_port(&a.client, &mut b.listener).await?;
-                let rtask = tokio::spawn(drain(rx_b, false));
+                let rtask = crate::sched::spawn(drain(rx_b, false));
                 net.set_starved(Dir::AB, true);
                 let pool = super::c01::len_pool(&cfg_b);
                 let mut crng = rng.fork(9);
@@ -170,7 +170,7 @@ pub fn run_one(run: u64, seed: u64) -> RunOut {
                 let rb = cfg_b.receive_buffer as usize;
                 // The cancel sequence runs as a task: a send that is still queued behind the stalled transport
                 // at quiescence is cancelled by aborting the task (dropping the future between polls).
-                let ctask = tokio::spawn(async move {
+                let ctask = crate::sched::spawn(async move {
                     let mut tx_a = txm2.lock().await;
                     for i in 0..n_cancel {
                         let len = (*crng.pick(&pool)).max(1);
@@ -192,7 +192,7 @@ pub fn run_one(run: u64, seed: u64) -> RunOut {
                 let mut tx_a = txm.lock_owned().await;
                 // probe: a message as large as the whole window, then a 1-byte message
                 let full = cfg_b.receive_buffer as usize;
-                let probe = tokio::spawn(async move {
+                let probe = crate::sched::spawn(async move {
                     let r1 = tx_a.send(Bytes::from(payload(500, full))).await.is_ok();
                     let r2 = tx_a.send(Bytes::from(payload(501, 1))).await.is_ok();
                     crate::simnet::bump_progress();
